@@ -102,7 +102,29 @@ def offer(b, st, port, op=None):
     from hugr import ops
 
     op = ops.Noop() if op is None else op
-    v = (sum(map(ord, st["id"])) // 7) % 6
+    import hashlib
+
+    v = int(hashlib.md5(("offer" + st["id"]).encode()).hexdigest(), 16) % 9   # (spread evenly over the entry points)
+    if v >= 6:
+        # a container built on its own and inserted with the refused wire among its inputs
+        from hugr import tys as _tys
+        from hugr.build import Cfg as _Cfg
+        from hugr.build import Dfg as _Dfg
+        from hugr.build import TailLoop as _TailLoop
+
+        if v == 6:
+            d_ = _Dfg(_tys.Bool)
+            d_.set_outputs(*d_.inputs())
+            return (lambda: b.insert_nested(d_, port)), "insert_nested"
+        if v == 7:
+            c_ = _Cfg(_tys.Bool)
+            with c_.add_entry() as e_:
+                e_.set_single_succ_outputs(*e_.inputs())
+            c_.branch_exit(e_[0])
+            return (lambda: b.insert_cfg(c_, port)), "insert_cfg"
+        t_ = _TailLoop([], [_tys.Bool])
+        t_.set_loop_outputs(t_.add_op(ops.Tag(1, _tys.Either([], []))), *t_.inputs())
+        return (lambda: b.insert_tail_loop(t_, [], [port])), "insert_tail_loop"
     if v == 0:
         return (lambda: b.add_op(op, port)), "add_op"
     if v == 1:
